@@ -1361,6 +1361,7 @@ func (nd *KVNode) applyEntries(np *nodeProgress, applyEvent *applyInfo) (bool, b
 	for i := range ents {
 		evnt := ents[i]
 		isReplaying := evnt.Index <= nd.rn.lastIndex
+		nd.rn.verifPoint("apply.beforeEntry")
 		switch evnt.Type {
 		case raftpb.EntryNormal:
 			needBackup := nd.applyEntry(evnt, isReplaying, batch)
